@@ -833,6 +833,20 @@ class XsdPatternFacets(XsdFacet, MutableSequence[ElementType]):
         return get_xsd_annotation(self._elements[i], self.schema, self)
 
 
+class XsdPatternsChain:
+    """
+    The pattern facets of more derivation steps of a union type: the
+    patterns of each step are alternatives, the steps have all to be matched.
+    """
+    def __init__(self, *steps: Union['XsdPatternFacets', 'XsdPatternsChain']) -> None:
+        self.steps = steps
+
+    def __call__(self, text: str) -> None:
+        for patterns in self.steps:
+            patterns(text)
+
+
+
 class XsdAssertionFacet(XsdFacet):
     """
     XSD 1.1 *assertion* facet for simpleType definitions.
